@@ -43,6 +43,31 @@ def run_limited(cmd, env=None, timeout=600, cwd=None):
         return 124, (ex.stdout or b"").decode("utf-8", "replace") + "\n[killed: timeout after %ss]" % timeout
 
 
+def count_records(path):
+    """Complete records of a case file per kind, and the number of END markers (what the driver must have visited)."""
+    n = {"N": 0, "P": 0, "L": 0, "B": 0, "END": 0}
+    if os.path.exists(path):
+        with open(path, "rb") as f:
+            for line in f:
+                line = line.rstrip(b"\n")
+                if line.startswith(b"END"):
+                    n["END"] += 1
+                elif len(line) > 2 and line[:1] in (b"N", b"P", b"L", b"B") and line[1:2] == b" " and line.endswith(b")"):
+                    n[line[:1].decode()] += 1
+    return n
+
+
+def driver_count_problem(mlog, want):
+    """None when the driver visited exactly the records of the case file, else a description."""
+    m = re.search(r"RECORDS N (\d+) P (\d+) L (\d+) B (\d+) END (\d+)", mlog)
+    if not m:
+        return "the driver printed no RECORDS line"
+    got = dict(zip(("N", "P", "L", "B", "END"), map(int, m.groups())))
+    if got != want:
+        return "the driver visited %s, the case file holds %s" % (got, want)
+    return None
+
+
 def build_driver():
     return vlib.build_ocaml_driver("c12_driver", os.path.join(vlib.COQ, "extracted"),
                                    os.path.join(HERE, "driver", "c12_driver.ml"), extra_pkgs=("zarith", "unix"),
@@ -125,6 +150,19 @@ def run(ctx):
     if checks > 0 and not ctx.replay and summ.get("cases", 0) >= 40 and (not mb or int(mb.group(1)) == 0):
         ctx.violation("c12-no-builder-replays", "no op log of a bottom-up built network was replayed by the builder model",
                       {"driver_output": mlog[-2000:]}, found_input=False)
+    want = count_records(out)
+    if not ctx.replay:
+        prob = driver_count_problem(mlog, want)
+        if prob or want["END"] != 1:
+            ctx.violation("c12-driver-count", "model side incomplete: %s (END markers in the case file: %d)" % (prob or "counts agree", want["END"]),
+                          {"driver_output": mlog[-2000:]}, found_input=False)
+        # every leg has a floor: networks, model-compared records, builder replays (half of an undisturbed run)
+        floor_cases = ncases // 2
+        if summ.get("cases", 0) < floor_cases or want["L"] < 3 * floor_cases or want["B"] < floor_cases // 8:
+            ctx.violation("c12-too-few-evaluations", "the run covered too little: %d networks (floor %d), %d load records (floor %d), %d builder logs (floor %d); budget exhausted: %s"
+                          % (summ.get("cases", 0), floor_cases, want["L"], 3 * floor_cases, want["B"], floor_cases // 8, bool(summ["hist"].get("budget-exhausted"))),
+                          {}, found_input=False)
+        ctx.min_evaluations = 6 * floor_cases
     known_sigs = {k["signature"] for k in ctx.known_open}
     new_fails = [f for f in summ["fails"] if f[0] not in known_sigs]
     if (mism != 0 or wff != 0) and not new_fails:
@@ -147,6 +185,7 @@ def run(ctx):
                 "bus, >= 1 message and >= 2 signals",
         "distribution": summ["hist"],
         "model_checks": checks,
+        "records_in_case_file_and_visited_by_the_driver": want,
         "model_mismatches": mism,
         "model_wf_failures": wff,
         "budget_exhausted": bool(summ["hist"].get("budget-exhausted")) or "BUDGET exhausted" in mlog,
